@@ -1,10 +1,106 @@
+#![allow(dead_code)]
+mod drive;
+mod drive2;
 mod exec;
 mod fmtgen;
+mod gen;
 mod kinds;
+mod matrix;
 mod out;
+mod prep;
+mod replay;
+mod sink;
+
+use drive::Tier;
+use serde_json::json;
+
+fn arg(args: &[String], name: &str, default: &str) -> String {
+    args.iter().position(|a| a == name).and_then(|i| args.get(i + 1)).cloned().unwrap_or_else(|| default.to_string())
+}
+
 fn main() {
-    let mut x = kinds::AnyBv::fresh(kinds::Kind::F8x2, &[1, 0, 1]);
-    let y = exec::Y::Vec(kinds::AnyBv::fresh(kinds::Kind::D, &[1, 1]));
-    let o = exec::exec(&mut x, &y, "add", "rr", &out::Args::default());
-    println!("{}", o.to_json());
+    // panics of the code under test are data: keep them off stderr
+    std::panic::set_hook(Box::new(|info| {
+        let msg = info.payload().downcast_ref::<String>().cloned().or_else(|| info.payload().downcast_ref::<&str>().map(|s| s.to_string())).unwrap_or_default();
+        if msg.starts_with("harness:") {
+            eprintln!("HARNESS-PANIC {} at {:?}", msg, info.location());
+        }
+    }));
+    let args: Vec<String> = std::env::args().collect();
+    let cmd = args.get(1).map(|s| s.as_str()).unwrap_or("");
+    let dbg = cfg!(debug_assertions);
+    let profile = if dbg { "dev" } else { "release" };
+    match cmd {
+        "drive" => {
+            let prop = args.get(2).expect("usage: drive <PROP> --tier T --seed S --out DIR --shards K").clone();
+            let tier = arg(&args, "--tier", "quick");
+            let seed: u64 = arg(&args, "--seed", "1").parse().expect("seed");
+            let out = arg(&args, "--out", "out");
+            let shards: usize = arg(&args, "--shards", "8").parse().expect("shards");
+            let t = Tier { quick: tier != "thorough", seed, dbg };
+            let hdr = json!({"prop": prop, "tier": tier, "seed": seed, "profile": profile, "debug_assertions": dbg, "big": 1u64 << 30});
+            let mut sink = sink::Sink::new(&out, &prop, profile, shards, &hdr);
+            let mut m = matrix::Matrix::new(dbg, if t.quick { 3 } else { 5 });
+            let mut stats = drive2::Stats::default();
+            let all = matrix_kinds();
+            match prop.as_str() {
+                "C01" => drive::drive_c01(&t, &mut m, &mut sink),
+                "C02" => drive::drive_c02(&t, &mut m, &mut sink),
+                "C03" => drive2::drive_c03(&t, &mut sink, &mut stats),
+                "C04" => drive::drive_c04(&t, &mut m, &mut sink),
+                "C05" => drive::drive_c05(&t, &mut m, &mut sink),
+                "C06" => drive::drive_c06(&t, &mut m, &mut sink),
+                "C07" => {
+                    drive::drive_c07_cases(&t, &mut m, &mut sink);
+                    drive2::drive_histories(&t, &mut sink, drive2::Profile::Edits, "fun", &all, t.q(160, 1600), t.q(25, 40), &mut stats);
+                }
+                "C08" => drive::drive_c08(&t, &mut m, &mut sink),
+                "C09" => drive::drive_c09(&t, &mut m, &mut sink),
+                "C10" => drive2::drive_c10(&t, &mut sink, &mut stats),
+                "C11" => {
+                    drive::drive_c11(&t, &mut m, &mut sink);
+                    sink.emit(drive::bit_conversion_events(dbg));
+                }
+                "C12" => drive::drive_c12(&t, &mut m, &mut sink),
+                "C13" => drive::drive_c13(&t, &mut m, &mut sink),
+                "C14" => drive::drive_c14(&t, &mut m, &mut sink),
+                "C15" => drive::drive_c15(&t, &mut m, &mut sink),
+                "C16" => drive::drive_c16(&t, &mut m, &mut sink),
+                "C17" => drive2::drive_c17(&t, &mut sink, &mut stats),
+                "C18" => {
+                    let ks = [kinds::Kind::D, kinds::Kind::A];
+                    drive2::drive_histories(&t, &mut sink, drive2::Profile::Cap, "cap", &ks, t.q(200, 2000), t.q(30, 50), &mut stats);
+                    let fk: Vec<kinds::Kind> = all.iter().copied().filter(|k| k.is_fixed()).collect();
+                    drive2::drive_histories(&t, &mut sink, drive2::Profile::Cap, "cap", &fk, t.q(56, 560), t.q(15, 30), &mut stats);
+                }
+                "C19" => drive2::drive_c19(&t, &mut m, &mut sink),
+                "C20" => drive2::drive_c20(&t, &mut sink, &mut stats),
+                other => {
+                    eprintln!("HARNESS-ERROR unknown property {}", other);
+                    std::process::exit(2);
+                }
+            }
+            let (lines, samples, total) = sink.finish();
+            println!(
+                "{}",
+                json!({"prop": prop, "profile": profile, "events": total, "shard_lines": lines, "execs": m.execs + stats.execs,
+                       "prep_fallbacks": m.prep_fallbacks, "histories": stats.histories, "twin_agree": stats.agree, "twin_differ": stats.differ,
+                       "by_kind": m.by_kind, "by_op": m.by_op, "samples": samples})
+            );
+        }
+        "replay" => {
+            let prop = args.get(2).expect("usage: replay <PROP> [--max-fail N]").clone();
+            let max_fail: usize = arg(&args, "--max-fail", "20").parse().expect("max-fail");
+            let out = arg(&args, "--out", "out");
+            replay::replay_stdin(&prop, dbg, profile, max_fail, &out);
+        }
+        _ => {
+            eprintln!("usage: bva-verif-harness drive|replay ...");
+            std::process::exit(2);
+        }
+    }
+}
+
+fn matrix_kinds() -> Vec<kinds::Kind> {
+    kinds::ALL_KINDS.to_vec()
 }
